@@ -314,7 +314,7 @@ func (f *File) FSync() error {
 
 // Lock implements p9.File.
 func (f *File) Lock(pid int, locktype p9.LockType, flags p9.LockFlags, start, length uint64, client string) (p9.LockStatus, error) {
-	res, _ := f.m.rec(Rec{Op: "Lock", File: f.ID, Name: client, U: []uint64{uint64(uint32(pid)), uint64(locktype), uint64(flags), start, length}})
+	res, _ := f.m.rec(Rec{Op: "Lock", File: f.ID, Name: client, U: []uint64{uint64(int64(pid)), uint64(locktype), uint64(flags), start, length}})
 	if res == nil {
 		return p9.LockStatusOK, nil
 	}
